@@ -1017,13 +1017,21 @@ def local_instance(idx, fi, name):
     while top.parent is not None:
         top = top.parent
     node = getattr(top, "node_prep", None) or top.node
-    found = None
-    n_store = 0
-    for n in ast.walk(node):
-        if isinstance(n, ast.Name) and n.id == name and isinstance(n.ctx, (ast.Store, ast.Del)):
-            n_store += 1
-        if isinstance(n, ast.Assign) and len(n.targets) == 1 and isinstance(n.targets[0], ast.Name) and n.targets[0].id == name and isinstance(n.value, ast.Call):
-            found = n
+    # one walk per function body: {name: (number of stores, the `name = Call(...)` statement)}
+    memo = idx.__dict__.setdefault("_local_instance_memo", {})
+    key = id(node)
+    ent = memo.get(key)
+    if ent is None or ent[0] is not node:
+        stores, calls = {}, {}
+        for n in ast.walk(node):
+            if isinstance(n, ast.Name) and isinstance(n.ctx, (ast.Store, ast.Del)):
+                stores[n.id] = stores.get(n.id, 0) + 1
+            if isinstance(n, ast.Assign) and len(n.targets) == 1 and isinstance(n.targets[0], ast.Name) and isinstance(n.value, ast.Call):
+                calls[n.targets[0].id] = n
+        ent = (node, stores, calls)
+        memo[key] = ent
+    found = ent[2].get(name)
+    n_store = ent[1].get(name, 0)
     if found is None or n_store != 1 or name in [a.arg for a in node.args.args]:
         return None
     r = idx.resolve(top.module, found.value.func, top)
